@@ -1,7 +1,8 @@
 #!/usr/bin/env python3
 """Confirm candidate breaking changes and run the checks against them.
 
-usage: seed_batch.py <Cxx> [<Cxx> ...]      (candidates in /tmp/mut/<Cxx>/_out/<k>/)
+usage: seed_batch.py <Cxx>[:Cyy,Czz] ...      (candidates in /tmp/mut/<Cxx>/$SEED_DIR/<k>/; SEED_OFFSET renumbers them;
+                                               SEED_LAZY=1: the extra checks Cyy,Czz only run when Cxx's own check misses)
 
 For every candidate: (1) the patch applies to a scratch worktree at /repo's HEAD,
 (2) the repository's test-suite result is unchanged with it, (3) the demonstration
@@ -46,9 +47,13 @@ def main():
         if ":" in pid:
             pid, more = pid.split(":")
             extra = more.split(",")
-        wt = MUT / pid
-        sh("git checkout -q -- . && git checkout -q --detach main", cwd=wt)
-        for cand in sorted((wt / os.environ.get("SEED_DIR", "_out")).glob("*")):
+        src = MUT / pid  # where the candidates were written (an agent may still be working there)
+        wt = Path(tempfile.mkdtemp(prefix=f"seedwt-{pid}-")) / "wt"  # our own scratch worktree of /repo's HEAD
+        rc, out = sh(f"git -C /repo worktree add -q --detach {wt} HEAD")
+        if rc != 0:
+            print(json.dumps({"property": pid, "error": "worktree: " + out[-200:]}))
+            continue
+        for cand in sorted((src / os.environ.get("SEED_DIR", "_out")).glob("*")):
             k = cand.name
             if k.isdigit():
                 k = str(int(k) + int(os.environ.get("SEED_OFFSET", "0")))
@@ -72,7 +77,10 @@ def main():
                 scratch = Path(tempfile.mkdtemp(prefix="seedrun-"))
                 env = {"VERIF_REPO": str(wt), "VERIF_EVIDENCE_DIR": str(scratch / "ev"), "VERIF_REPLAY_DIR": str(scratch / "replay")}
                 res["checks"] = {}
+                env["VERIF_CACHE_DIR"] = str(scratch / "cache")
                 for c in [pid] + extra:
+                    if c != pid and os.environ.get("SEED_LAZY") and any(v["rc"] == 1 for v in res["checks"].values()):
+                        break  # already detected: the neighbouring checks are only consulted for a miss
                     rc, out = sh(f"./check {c} --tier quick", cwd=VERIF, env=env, timeout=5400)
                     sigs = [l.strip() for l in out.splitlines() if "signature:" in l][:6]
                     res["checks"][c] = {"rc": rc, "signatures": sigs, "tail": out.strip().splitlines()[-1] if out.strip() else ""}
@@ -106,6 +114,8 @@ def main():
                     }
                 )
                 (dst / "meta.json").write_text(json.dumps(meta, indent=1) + "\n")
+        sh(f"git -C /repo worktree remove --force {wt}")
+        shutil.rmtree(wt.parent, ignore_errors=True)
 
 
 if __name__ == "__main__":
